@@ -17,7 +17,7 @@ func register(c *Check) { allChecks = append(allChecks, c) }
 
 // apiProps: the properties whose statement includes what the exported wrappers and the Builder's option wiring
 // do; each of them gets the public-API scenario (harness/root/api_test.go) with its own clauses selected.
-var apiProps = map[string]bool{"C01": true, "C05": true, "C06": true, "C10": true, "C11": true, "C13": true, "C14": true, "C16": true}
+var apiProps = map[string]bool{"C01": true, "C05": true, "C06": true, "C10": true, "C11": true, "C13": true, "C14": true, "C15": true, "C16": true}
 
 var apiAdded = false
 
@@ -31,7 +31,13 @@ func registry() []*Check {
 			}
 			c.Quick = append(c.Quick, Scenario{Name: c.ID + "/api-wiring", Build: plain, Pkg: "root", Test: "TestVerif_API", Params: "prop=" + c.ID + ",depth=3", Shards: 4, BudgetS: 60})
 			c.Thorough = append(c.Thorough, Scenario{Name: c.ID + "/api-wiring", Build: plain, Pkg: "root", Test: "TestVerif_API", Params: "prop=" + c.ID + ",depth=5", Shards: 16, BudgetS: 600})
-			c.Technique += "; plus exhaustive enumeration of every exported-call sequence (to depth 3, thorough 5, on two keys) on every cache kind and option combination the exported Builder produces, against a map (public-API layer: wrappers and option wiring)"
+			if c.ID != "C10" && c.ID != "C11" {
+				c.Quick = append(c.Quick, Scenario{Name: c.ID + "/api-pressure-m1", Build: plain, Pkg: "root", Test: "TestVerif_APIPressure", Params: "prop=" + c.ID + ",depth=5,max=1", Shards: 8, BudgetS: 60})
+				c.Thorough = append(c.Thorough,
+					Scenario{Name: c.ID + "/api-pressure-m1", Build: plain, Pkg: "root", Test: "TestVerif_APIPressure", Params: "prop=" + c.ID + ",depth=7,max=1", Shards: 16, BudgetS: 900},
+					Scenario{Name: c.ID + "/api-pressure-m2", Build: plain, Pkg: "root", Test: "TestVerif_APIPressure", Params: "prop=" + c.ID + ",depth=6,max=2", Shards: 16, BudgetS: 900})
+			}
+			c.Technique += "; plus exhaustive enumeration of every exported-call sequence (to depth 3, thorough 5, on two keys) on every cache kind and option combination the exported Builder produces, against a map (public-API layer: wrappers and option wiring), and - except C10/C11 - every exported-call sequence (depth 5, thorough 7) on three keys under capacity pressure (MaxSize 1, thorough also 2) over kinds x {entry pool, StringKey, doorkeeper}, judged by an observation-driven reference after every call"
 			c.LevelNote += "; the public-API scenario runs un-instrumented with real goroutines, capacity 100 (no eviction, no expiry), and compares asynchronous effects only after Wait"
 		}
 	}
